@@ -34,7 +34,7 @@ from vc.runner import Task
 from . import nlp
 from .spec import Spec, E, Con
 from .oracle import Oracle
-from .backend import ufun, unknown
+from .backend import ufun, unknown, MODEL
 from .catalog import NONUNIFORM
 
 
@@ -86,7 +86,7 @@ def bernstein_of_step(co, h):
         r = 0
         for j in range(i + 1):
             from fractions import Fraction
-            r = r + a[j] * Fraction(comb(i, j), comb(4, j))
+            r = r + a[j] * (Fraction(comb(i, j), comb(4, j)) if MODEL else comb(i, j) / comb(4, j))
         rows.append(r.T)
     return ca.vcat(rows)       # 5 x nx
 
@@ -112,7 +112,7 @@ def inf_check(spec_kw, inst):
     ts = orc.ts
     N, M = spec.N, spec.M
     for k in range(N):
-        c.assume(ca.tz((ts[k + 1] - ts[k]).e[0]) != 0)      # grids with T > 0: interval lengths are non-zero
+        nlp.assume_nonzero(ts[k + 1] - ts[k])      # grids with T > 0: interval lengths are non-zero
     base = "%s|sampling_method:SamplingMethod.add_inf_constraints" % inst
     c.prove(base + ":ensures:one-call-per-integrator-step-and-constraint", len(CALLS) == 2 * N * M, detail="%d calls for N=%d M=%d and 2 constraints" % (len(CALLS), N, M))
     if len(CALLS) != 2 * N * M:
@@ -385,7 +385,7 @@ def tasks(tier):
                 inst = "C15/%s-N%d-M%d-%s" % (meth, N, M, gname)
                 kw = dict(method=meth, N=N, M=M, grid=dict(g), T=Tk, t0=("unknown",), ode=E("f", None, ("x", "u", "t")), **extra)
                 out.append(Task(inst, lambda kw=kw, inst=inst: inf_check(kw, inst), kind="bounded", bound=dict(method=meth, N=N, M=M, grid=g, T=list(Tk)),
-                                replay=dict(harness="inf_probe", method=meth, N=N, M=M, grid=g)))
+                                replay=dict(harness="task_probe", module="contracts.c15", task=inst, tier=tier)))
     out.extend(algebra_tasks(tier))
     for shape in REINTERPRET_SHAPES:
         out.append(Task("C15/reinterpret/" + shape, lambda shape=shape: reinterpret_contract(shape), kind="bounded", replay=dict(harness="reinterpret_probe", shape=shape), functions=["casadi_helpers:reinterpret_expr", "splines.spline:BSpline"],
